@@ -31,13 +31,22 @@ def tokens_for(kind):
     return t
 
 
+def sparse_token(word, i=0):
+    """a token that lacks most annotator attributes (as trees built from plain words or read from some treebank files have)"""
+    return Token(word=word, pos=['NN', 'VBZ'][i % 2]) if i % 2 == 0 else Token(word=word)
+
+
 def en_token(word, i=0, rich=True):
+    if word == 'same':
+        i = 0          # the same word with identical annotation at every position (equal token dicts)
     if rich:
         return Token(word=word, lemma=word.lower() if word.isalpha() else word, pos=['NN', 'VBZ', 'DT', 'IN'][i % 4], entity=['O', 'I-ORG'][i % 2], chunk=['I-NP', 'I-VP'][i % 2])
     return Token.of_word(word)
 
 
 def ja_token(word, i=0):
+    if word == 'same':
+        i = 0
     return Token(word=word, surf=word, base=word, pos=['名詞', '動詞'][i % 2], pos1=['一般', '*'][i % 2], pos2='*', pos3='*',
                  inflectionForm=['*', '基本形'][i % 2], inflectionType='*', reading='*')
 
